@@ -11,14 +11,12 @@
                  (value_message, value_message_refuted)
      key path  : nothing; every error of `key` is below its .context(Label(key)) or is the
                  recursion-limit cause (key_path_message, no side condition)
-     key       : a FINDING.  simple_key = dispatch!{peek(any); QUOTATION_MARK => basic_string,
-                 APOSTROPHE => literal_string, _ => unquoted_key} has no context of its own, and
-                 neither peek(any) (empty input) nor take_while(1.., UNQUOTED_CHAR) (first byte is
-                 no key character) attaches one: Key::from_str of the empty string and of `!` are
-                 rejected with an EMPTY message.  The side condition `key_head_b s = true` (the
-                 input starts with a quotation mark, an apostrophe or an unquoted-key character) is
-                 exact: under it every error is labelled (key_message), without it the input is
-                 always rejected at offset 0 with the bare error (key_message_empty). *)
+     key       : nothing; `simple_key` carries .context(Label(key)) around its whole dispatch
+                 (key_message, no side condition).  Before that context was added, peek(any) on the
+                 empty input and take_while(1.., UNQUOTED_CHAR) on a first byte that starts no key
+                 failed with the bare error: Key::from_str of the empty string and of `!` had an
+                 EMPTY message (former finding C15-empty-message-key-start, repaired in
+                 parser/key.rs; the former witnesses are kept as regression examples below). *)
 From Coq Require Import List Bool Arith NArith Lia.
 From Coq.Strings Require Import Byte.
 From TV Require Import Base.Prelude Base.Utf8 Base.Winnow Gen.Consts.
@@ -92,143 +90,25 @@ Lemma key_path_message s e at_ :
 Proof. unfold parse_key_path. apply eoi_labelled, key_lab0. Qed.
 
 (* ---- key --------------------------------------------------------------------------------------------- *)
-(* the first byte selects an arm of simple_key that can start on it *)
-Definition key_head_b (s : bytes) : bool :=
-  match s with
-  | [] => false
-  | b :: _ => byte_eqb b QUOTATION_MARK || byte_eqb b APOSTROPHE || in_class UNQUOTED_CHAR b
-  end.
-
-Lemma escape_seq_char_cut i e i' : escape_seq_char i = Cut e i' -> labelled e.
+(* every error of simple_key is the error of its `.context(Label("key"))` dispatch *)
+Lemma simple_key_lab0 i : lab0 simple_key i.
 Proof.
-  unfold escape_seq_char, bind. destruct (any i) as [b i1|e1 i1|e1 i1|st] eqn:Ea; try discriminate.
-  - destruct (assoc_byte ESCAPE_SIMPLE b); [discriminate|].
-    destruct (assoc_byte ESCAPE_HEX b); intro H; eapply context_err; left; exact H.
-  - intros _. exfalso. exact (NC_any _ _ _ Ea).
-Qed.
-
-Lemma escaped_cut i e i' : escaped i = Cut e i' -> labelled e.
-Proof.
-  unfold escaped, preceded, bind. destruct (byte_ ESCAPE i) as [b i1|e1 i1|e1 i1|st] eqn:Eb; try discriminate.
-  - apply escape_seq_char_cut.
-  - intros _. exfalso. exact (NC_byte _ _ _ _ Eb).
-Qed.
-
-Lemma basic_chars_cut i e i' : basic_chars i = Cut e i' -> labelled e.
-Proof.
-  unfold basic_chars, alt.
-  destruct (from_utf8 (take_while1 (in_class BASIC_UNESCAPED)) i) as [b i1|e1 i1|e1 i1|st] eqn:E1; try discriminate.
-  - apply escaped_cut.
-  - intros _. exfalso. revert E1. unfold from_utf8, try_map, take_while1, take_while_mn. cbv zeta.
-    destruct (Nat.ltb _ 1); [discriminate|]. destruct (utf8_valid_b _); discriminate.
-Qed.
-
-Lemma chunks_f_cut fuel p :
-  (forall i e i', p i = Cut e i' -> labelled e) ->
-  forall acc i e i', chunks_f fuel p acc i = Cut e i' -> labelled e.
-Proof.
-  intros Hp. induction fuel as [|f IH]; intros acc i e i'; cbn [chunks_f]; [discriminate|].
-  destruct (p i) as [c i1|e1 i1|e1 i1|st] eqn:E; try discriminate.
-  - destruct (Nat.eqb _ _); [discriminate|]. apply IH.
-  - intro H. injection H as <- _. eapply Hp. exact E.
-Qed.
-
-Lemma chunks_f_nbt fuel p : forall acc i e i', chunks_f fuel p acc i <> Bt e i'.
-Proof.
-  induction fuel as [|f IH]; intros acc i e i'; cbn [chunks_f]; [discriminate|].
-  destruct (p i) as [c i1|e1 i1|e1 i1|st]; try discriminate.
-  destruct (Nat.eqb _ _); [discriminate|]. apply IH.
-Qed.
-
-(* basic_string started on its quotation mark *)
-Definition basic_string_tail : parser bytes :=
-  c <- chunks basic_chars ;; context (cut_err (byte_ QUOTATION_MARK)) ;;; ret c.
-
-Lemma basic_string_on_quote i r : rest i = QUOTATION_MARK :: r -> basic_string i = basic_string_tail (advance 1 i).
-Proof. intro Hr. unfold basic_string. unfold bind at 1. rewrite (byte_head _ _ _ Hr). reflexivity. Qed.
-
-Lemma basic_string_lab0 i r : rest i = QUOTATION_MARK :: r -> lab0 basic_string i.
-Proof.
-  intros Hr e i'. rewrite (basic_string_on_quote _ _ Hr). unfold basic_string_tail, bind, chunks.
-  destruct (chunks_f (S (length (rest (advance 1 i)))) basic_chars [] (advance 1 i)) as [c i1|e1 i1|e1 i1|st] eqn:Ec.
-  - destruct (context (cut_err (byte_ QUOTATION_MARK)) i1) as [q i2|e2 i2|e2 i2|st] eqn:Eq.
-    + unfold ret. intros [H|H]; discriminate H.
-    + intros [H|H]; [discriminate H|]. injection H as <- _. eapply context_err. right. exact Eq.
-    + intros [H|H]; [|discriminate H]. injection H as <- _. eapply context_err. left. exact Eq.
-    + intros [H|H]; discriminate H.
-  - exfalso. exact (chunks_f_nbt _ _ _ _ _ _ Ec).
-  - intros [H|H]; [|discriminate H]. injection H as <- _.
-    eapply chunks_f_cut; [exact basic_chars_cut|exact Ec].
+  intros e i'. unfold simple_key, pmap, with_span.
+  match goal with |- context [context ?q i] => set (d := q) end.
+  destruct (context d i) as [k i1|e1 i1|e1 i1|st] eqn:E.
   - intros [H|H]; discriminate H.
-Qed.
-
-Lemma literal_string_lab0 i : lab0 literal_string i.
-Proof. intros e i' H. unfold literal_string in H. eapply context_err. exact H. Qed.
-
-(* unquoted_key started on one of its characters does not fail *)
-Lemma unquoted_key_lab0 i b r : rest i = b :: r -> in_class UNQUOTED_CHAR b = true -> lab0 unquoted_key i.
-Proof.
-  intros Hr Hc e i'. unfold unquoted_key, unchecked_utf8, take_while1, take_while_mn. cbv zeta.
-  rewrite Hr. cbn [span_while]. rewrite Hc.
-  destruct (span_while (in_class UNQUOTED_CHAR) r) as [a r']. cbn [fst length Nat.ltb Nat.leb].
-  destruct (utf8_valid_b (b :: a)); intros [H|H]; discriminate H.
-Qed.
-
-(* ... and on any other byte fails with the bare error, in place *)
-Lemma unquoted_key_bare i b r : rest i = b :: r -> in_class UNQUOTED_CHAR b = false -> unquoted_key i = Bt err0 i.
-Proof.
-  intros Hr Hc. unfold unquoted_key, unchecked_utf8, take_while1, take_while_mn. cbv zeta.
-  rewrite Hr. cbn [span_while]. rewrite Hc. reflexivity.
-Qed.
-
-Lemma peek_any_cons i b r : rest i = b :: r -> peek any i = Ok b i.
-Proof. intro Hr. unfold peek, any. rewrite Hr. reflexivity. Qed.
-
-Lemma simple_key_lab0 s : key_head_b s = true -> lab0 simple_key (new_input s).
-Proof.
-  destruct s as [|b r]; [discriminate|]. cbn [key_head_b]. intros Hh e i'.
-  assert (Hr : rest (new_input (b :: r)) = b :: r) by reflexivity.
-  set (i := new_input (b :: r)) in *.
-  assert (Harm : lab0 (if byte_eqb b QUOTATION_MARK then basic_string
-                       else if byte_eqb b APOSTROPHE then literal_string else unquoted_key) i).
-  { destruct (byte_eqb b QUOTATION_MARK) eqn:E1.
-    { apply byte_eqb_eq in E1. subst b. eapply basic_string_lab0. exact Hr. }
-    destruct (byte_eqb b APOSTROPHE) eqn:E2; [apply literal_string_lab0|].
-    cbn [orb] in Hh. eapply unquoted_key_lab0; [exact Hr|exact Hh]. }
-  unfold simple_key, pmap, with_span, bind. rewrite (peek_any_cons _ _ _ Hr).
-  destruct ((if byte_eqb b QUOTATION_MARK then basic_string
-             else if byte_eqb b APOSTROPHE then literal_string else unquoted_key) i) as [k i1|e1 i1|e1 i1|st] eqn:Ea.
-  - intros [H|H]; discriminate H.
-  - intros [H|H]; [discriminate H|]. injection H as <- _. apply (Harm e1 i1). right. exact Ea.
-  - intros [H|H]; [|discriminate H]. injection H as <- _. apply (Harm e1 i1). left. exact Ea.
+  - intros [H|H]; [discriminate H|]. injection H as <- _. eapply context_err. right. exact E.
+  - intros [H|H]; [|discriminate H]. injection H as <- _. eapply context_err. left. exact E.
   - intros [H|H]; discriminate H.
 Qed.
 
 Lemma key_message s e at_ :
-  key_head_b s = true -> parse_key s = PErr e at_ -> e_cause e <> None \/ e_ctx e = true.
-Proof. intro Hh. unfold parse_key. apply eoi_labelled, simple_key_lab0, Hh. Qed.
+  parse_key s = PErr e at_ -> e_cause e <> None \/ e_ctx e = true.
+Proof. unfold parse_key. apply eoi_labelled, simple_key_lab0. Qed.
 
-(* the side condition is exact: every other input is rejected at offset 0 with the bare error *)
-Lemma key_message_empty s : key_head_b s = false -> parse_key s = PErr err0 (Some 0%N).
-Proof.
-  intro Hh. unfold parse_key.
-  assert (E : simple_key (new_input s) = Bt err0 (new_input s)).
-  { destruct s as [|b r].
-    - reflexivity.
-    - cbn [key_head_b] in Hh. apply orb_false_iff in Hh as [Hh H3]. apply orb_false_iff in Hh as [H1 H2].
-      assert (Hr : rest (new_input (b :: r)) = b :: r) by reflexivity.
-      unfold simple_key, pmap, with_span, bind. rewrite (peek_any_cons _ _ _ Hr), H1, H2.
-      rewrite (unquoted_key_bare _ _ _ Hr H3). reflexivity. }
-  rewrite (parse_all_eoi_bt _ _ _ _ E). reflexivity.
-Qed.
-
-(* the finding, as witnesses: the empty input, and `!` *)
-Lemma key_message_refuted :
-  exists s e at_, parse_key s = PErr e at_ /\ e_cause e = None /\ e_ctx e = false
-                  /\ bare_cr_near_o s at_ = false.
-Proof. exists [], err0, (Some 0%N). vm_compute. auto. Qed.
-
-Lemma key_message_refuted_bang :
-  exists s e at_, parse_key s = PErr e at_ /\ e_cause e = None /\ e_ctx e = false
-                  /\ bare_cr_near_o s at_ = false /\ s <> [].
-Proof. exists [x21], err0, (Some 0%N). vm_compute. repeat split; discriminate. Qed.
+(* the witnesses of the former finding: the empty input and `!` are still rejected at offset 0, now with
+   the context *)
+Lemma key_message_former_witnesses :
+  parse_key [] = PErr (mkErr None true) (Some 0%N) /\ parse_key [x21] = PErr (mkErr None true) (Some 0%N)
+  /\ parse_key [x0d] = PErr (mkErr None true) (Some 0%N).
+Proof. vm_compute. repeat split. Qed.
